@@ -72,6 +72,10 @@ def run_property(pid, cfg, tier, known):
     if base is not None:
         have = set(names) | {n for n, _ in eng.problems}
         for b in base:
+            # obligations that exist only when a (possibly infeasible) exceptional / dynamically typed path is
+            # explored are not part of the floor: their presence depends on path pruning, not on the contracts
+            if "/raises#no-" in b or "/type#" in b:
+                continue
             if b not in have:
                 missing.append(b)
     proved = [n for n in names if groups[n][0] == "proved"]
